@@ -243,6 +243,23 @@ def execute(scen, scratch):
     return finish(sim, violations, verdicts, n_shapes > 0 and nontrivial_dim, runs, texts)
 
 
+def extra_scenarios(tier, base):
+    """caps far from the small numbers of the seeded scenarios: two classes of 320 instances, caps around 256 and beyond"""
+    out = []
+    triples = []
+    for i in range(640):
+        n = gen.iri(gen.EX + "n%d" % i)
+        triples.append((n, gen.iri(gen.RDF_TYPE), gen.iri(gen.EX + ("A" if i % 2 == 0 else "B"))))
+        triples.append((n, gen.iri(gen.EX + "p0"), gen.lit("v%d" % (i % 5), gen.XSD + "string")))
+    order = list(range(len(triples)))
+    for cap in ([255, 257, 310] if tier == "quick" else [1, 128, 255, 256, 257, 258, 300, 310, 319, 320, 321, 1000]):
+        for tgt in ({"all_classes_mode": True}, {"target_classes": [gen.EX + "A", gen.EX + "B"]}):
+            out.append(("bigcap-%d-%s" % (cap, "all" if "all_classes_mode" in tgt else "tc"), {
+                "half": "cap", "graph": gen.L(triples), "options": {"instances_report_mode": "mixed"}, "ns": dict(gen.BASE_NS),
+                "cap": cap, "target": tgt, "channel": "file", "orders": [order, order]}))
+    return out
+
+
 def shrink(scen):
     g = scen["graph"]
     n = len(g)
